@@ -592,33 +592,63 @@ pub fn campaign(run: &mut Run, target: &str, runs: u64, n_seeds: usize) {
             return;
         }
     }
-    let seed32 = (u64::from_le_bytes(run.seed_for(&name)[..8].try_into().unwrap()) % 0x7fff_fffe + 1).to_string();
-    // run the built binary directly, as JOBS parallel libFuzzer processes sharing the corpus (each does runs / JOBS)
+    let seed32 = u64::from_le_bytes(run.seed_for(&name)[..8].try_into().unwrap()) % 0x7fff_0000 + 1;
+    // run the built binary directly, as JOBS parallel libFuzzer processes with their own seeds, sharing the corpus
+    // directory (each does runs / JOBS executions; libFuzzer's own -jobs would hand every worker the same seed)
     let bin = format!("{root}/harness/target/x86_64-unknown-linux-gnu/release/fz");
-    let mut cmd = std::process::Command::new(&bin);
-    cmd.arg(&corpus);
-    cmd.args([
-        format!("-runs={}", (runs / JOBS).max(1)),
-        format!("-jobs={JOBS}"),
-        format!("-workers={JOBS}"),
-        format!("-seed={seed32}"),
-        format!("-max_len={}", t.max_len),
-        "-len_control=0".to_string(),
-        format!("-artifact_prefix={artifacts}/"),
-        "-print_final_stats=1".to_string(),
-        "-timeout=120".to_string(),
-        "-rss_limit_mb=6144".to_string(),
-    ]);
-    env(&mut cmd);
-    // the per-job logs (fuzz-<k>.log) are written to the working directory
-    cmd.current_dir(&artifacts);
-    let out = match cmd.output() {
-        Ok(o) => o,
-        Err(e) => {
-            run.inconclusive.push(format!("{name}: cannot run the fuzzer {bin}: {e}"));
-            return;
+    let mut children = vec![];
+    for k in 0..JOBS {
+        let mut cmd = std::process::Command::new(&bin);
+        cmd.arg(&corpus);
+        cmd.args([
+            format!("-runs={}", (runs / JOBS).max(1)),
+            format!("-seed={}", seed32 + k),
+            format!("-max_len={}", t.max_len),
+            "-len_control=0".to_string(),
+            "-reload=1".to_string(),
+            format!("-artifact_prefix={artifacts}/"),
+            "-print_final_stats=1".to_string(),
+            "-timeout=120".to_string(),
+            "-rss_limit_mb=6144".to_string(),
+        ]);
+        env(&mut cmd);
+        cmd.current_dir(&artifacts);
+        let logf = match std::fs::File::create(format!("{artifacts}/fuzz-{k}.log")) {
+            Ok(f) => f,
+            Err(e) => {
+                run.inconclusive.push(format!("{name}: cannot create a log file: {e}"));
+                return;
+            }
+        };
+        cmd.stdout(std::process::Stdio::null()).stderr(logf);
+        match cmd.spawn() {
+            Ok(c) => children.push(c),
+            Err(e) => {
+                run.inconclusive.push(format!("{name}: cannot run the fuzzer {bin}: {e}"));
+                return;
+            }
         }
-    };
+    }
+    let mut all_ok = true;
+    for mut c in children {
+        all_ok &= c.wait().map(|s| s.success()).unwrap_or(false);
+    }
+    struct Out {
+        ok: bool,
+    }
+    impl Out {
+        fn success(&self) -> bool {
+            self.ok
+        }
+        fn code(&self) -> Option<i32> {
+            None
+        }
+    }
+    struct OutW {
+        status: Out,
+        stderr: Vec<u8>,
+    }
+    let out = OutW { status: Out { ok: all_ok }, stderr: vec![] };
     let mut log = String::from_utf8_lossy(&out.stderr).to_string();
     let mut executed_total = 0u64;
     let (mut cov, mut ft, mut corp) = (0u64, 0u64, 0u64);
